@@ -37,7 +37,7 @@ func transformBalances(b channel.Balances, numParts int, indexMap []channel.Inde
 		}
 		// Fill at specified indices.
 		for p, _p := range indexMap {
-			_b[a][_p] = b[a][p]
+			_b[a][_p] = new(big.Int).Add(_b[a][_p], b[a][p])
 		}
 	}
 	return
